@@ -135,6 +135,35 @@ pub fn run(run: &mut Run) -> PResult {
         }
         run.generator("all tuples of sizes 2..7 over 8 words", "exhaustive", Some(n), n, nt, "8^2 + ... + 8^7 ordered arrays");
     }
+    // E: single-bit twins: a card and the same word with one bit flipped (every bit 0..31), in every
+    // ordered pair of slots of every size, the other slots holding other cards
+    {
+        let d = card::DECK;
+        let mut n = 0u64;
+        for b in 0..32u32 {
+            for (ci, c) in [d[0], d[20], d[51]].iter().enumerate() {
+                let twin = c ^ (1 << b);
+                for size in 2..=7usize {
+                    for i in 0..size {
+                        for j in 0..size {
+                            if i == j {
+                                continue;
+                            }
+                            let mut ws: Vec<u32> = (0..size).map(|k| d[(5 + 9 * k + 3 * ci) % 52]).collect();
+                            ws[i] = *c;
+                            ws[j] = twin;
+                            n += 1;
+                            if let Err(m) = sort_clause(&ws) {
+                                run.generator("single-bit twins in every slot pair", "structured-exhaustive", None, n, n, "");
+                                return run.violation("C11.sort", &card::render_hand(&ws), hand_json(&ws), &m);
+                            }
+                        }
+                    }
+                }
+            }
+        }
+        run.generator("single-bit twins in every slot pair", "structured-exhaustive", Some(n), n, n, "3 cards x 32 bits x sizes 2..7 x ordered slot pairs: two words that differ in exactly one bit must still be ordered");
+    }
     // R
     {
         let st = engine::RStats::new();
